@@ -44,6 +44,37 @@ KNOWN = []
 # --------------------------------------------------------------------------
 # translator
 # --------------------------------------------------------------------------
+def runtime_layer(ctx):
+    """'resumed exactly once ... however many fibers sleep concurrently ... or are stolen by another thread at the moment
+    they are woken' on the WHOLE real runtime (T2 machine of C01 with virtual time): sleep-heavy programs, the main
+    fiber's first blocking call a sleep, judged by the runtime oracle (a sleeper resumed before its suspension has
+    completed, resumed twice, or never resumed)."""
+    import random
+    from vf.props import C01
+    exe = C01.build(ctx)
+    if not exe:
+        return
+    rng = random.Random(ctx.seed * 7919 + 99)
+    n = 240 if ctx.tier == "quick" else 5000
+    cases = []
+    for _ in range(n):
+        nk = rng.choice([1, 2, 2, 3, 4])
+        progs = [[(rng.choice([18, 18, 18, 18, 1, 3, 2, 10]), rng.randint(0, 1)) for _ in range(rng.randint(1, 5))]
+                 for _f in range(rng.randint(1, 5))]
+        cases.append(core.fmt_case([60000, nk, rng.choice([0, 1, 1, 2, 2])], progs,
+                                   core.random_sched(rng, nk, rng.randint(30, 2000), rng.randrange(3))))
+    impl = core.run_sharded([exe], cases, timeout=900)
+    bad = 0
+    for c, line in zip(cases, impl):
+        why = core.safe_monitor(C01.monitor, c, core.parse_trace(line) if line is not None else None, line)
+        if why:
+            bad += 1
+            if bad <= 3:
+                core.report_violation(ctx, "kernel", c, "whole-runtime sleep layer: " + why, line)
+    ctx.coverage["runtime_sleep_layer_t2"] = {"runs": len(cases), "violations": bad}
+    ctx.oblige("sleep-t2(%d runs)" % len(cases), bad == 0, "%d runs judged a violation" % bad)
+
+
 def translate(ctx, write=True):
     probe = os.path.join(ctx.scratch, "sleep_probe.c")
     env = {"VERIF_REPO": core.REPO}
@@ -557,6 +588,7 @@ def run(ctx):
                         core.report_violation(ctx, label, c, why, line, KNOWN)
         if flags["translated"]:
             source_verdict(ctx, flags)
+    runtime_layer(ctx)
     core.finish(ctx, extra_assumptions=ASSUME)
 
 
@@ -569,6 +601,9 @@ def corpus(kind):
 
 
 def replay(ctx, payload):
+    if payload.get("harness") == "kernel":
+        from vf.props import C01
+        return C01.replay(ctx, payload)
     flags = translate(ctx, write=False) or fallback_flags(ctx)
     exe = build(ctx, flags)
     c, h = payload.get("case"), payload.get("harness")
